@@ -20,6 +20,13 @@ callback, owner = acknowledging worker; a Pool subclass with a syn-queue per
 worker + send_ack (synack=True): jobs cancelled before acceptance are refused,
 never run, never counted toward maxtasksperchild.
 
+Lane ACKWIN (L2): real pool, pool threads on: a sys.monitoring LINE event naps
+at the k-th line of ApplyResult._ack in the result-handler thread while the
+time-limit scanner / terminate_job / a killed worker makes another pool thread
+resolve the same job - the accept callback must still precede the result
+callback.  The ISO lane also runs the memory-limit exit path and values whose
+pickling fails with OSError / EOFError / MemoryError / any exception class.
+
 Lane PARENT (L1-lite): the real ResultHandler state handlers + ApplyResult fed
 with scripted ACK/READY messages in every seeded order relative to _cancel()."""
 import os
